@@ -188,6 +188,13 @@ def check_doc(case) -> Res:
                 fail("validate.repairs:" + mdiff(exp, gv), ch, f"text={r.text!r} repairs={gv}", exp)
             if real_receipts(rv.get("repair_log", [])) != gv:
                 fail("validate.repair_log-differs-from-repairs", ch, rv.get("repair_log"), gv)
+            # the read receipts are reported whatever the flags (fix on, other profiles, compact off)
+            for kw in ({"fix": True}, {"fix": True, "profile": "LENIENT"}, {"profile": "STRICT", "debug_grammar": True}):
+                rv2 = loop.run_until_complete(t["v"].execute(content=r.text, schema="META", **kw))
+                steps += 1
+                gv2 = real_receipts(rv2.get("repairs", []))
+                if gv2 != exp:
+                    fail("validate.repairs[" + "+".join(f"{k}={v}" for k, v in sorted(kw.items())) + "]:" + mdiff(exp, gv2), ch, f"text={r.text!r} repairs={gv2}", exp)
             # (3) octave_write corrections_only, strict and lenient
             path = os.path.join(t["dir"], f"c{os.getpid()}.oct.md")
             for lenient in (False, True):
